@@ -21,11 +21,11 @@ FORMS = ['Feature: x', 'Scenario: x', 'Examples:', 'Given x', '@t', '# c', '#lan
 RELS = ['less', 'equal', 'more']
 DELIMS = ['"""', '```']
 INDENTS = [0, 2, 5]
-MEDIA = ['', 'json', ' a b ']
+MEDIA = ['', 'json', ' a b ', '"', '`x`']
 HOSTS = ['background', 'scenario', 'outline', 'rule']
 FOLLOW = ['eof', 'step', 'scenario', 'tags+scenario', 'examples']
 # (media, host, follower, eol) combinations: every value of every dimension appears, all pairs host x follower appear
-COMBOS_QUICK = [(m, h, f, e) for (h, f) in itertools.product(HOSTS, FOLLOW) for m, e in [(MEDIA[(HOSTS.index(h) + FOLLOW.index(f)) % 3], '\n' if (HOSTS.index(h) + FOLLOW.index(f)) % 4 else '\r\n')]]
+COMBOS_QUICK = [(m, h, f, e) for (h, f) in itertools.product(HOSTS, FOLLOW) for m, e in [(MEDIA[(HOSTS.index(h) + FOLLOW.index(f)) % len(MEDIA)], '\n' if (HOSTS.index(h) + FOLLOW.index(f)) % 4 else '\r\n')]]
 COMBOS_ALL = list(itertools.product(MEDIA, HOSTS, FOLLOW, ['\n', '\r\n']))
 
 
@@ -125,8 +125,6 @@ def job_content(nlines, first, combos_name):
                 if any(l is None for l in lines):
                     continue
                 for (media, host, follower, eol) in combos:
-                    if delim == '```' and '`' in media:
-                        continue
                     model = build(lines, delim, dind, media, host, follower)
                     if model is None:
                         continue
